@@ -160,6 +160,26 @@ def r18_2(ctx, fx):
         ctx.ob("R18.2", "From<PeerId>-for-multiaddr::PeerId/only-panic-site-is-the-discharged-expect", ok, site=fn.site(fn.entry), cfg=fx.cfg, detail=str([(p["kind"], p["desc"]) for p in ps]))
 
 
+def r18_5(ctx, fx):
+    """every peer id that is derived from key bytes a remote peer supplies is the hash of the *canonical* encoding of that key, as in
+    the reference: outside peer_id.rs, the argument of PeerId::from_public_key_protobuf is rooted in a (re-)encoding call
+    (`Message::encode*` of the decoded key, or `to_protobuf_encoding` of a key object) - never the received bytes alone (protobuf
+    decoding accepts reordered fields, unknown fields and non-minimal varints)."""
+    n = 0
+    for key in sorted(fx.callers_of("peer_id::PeerId::from_public_key_protobuf")):
+        if key.startswith("peer_id::") or "::tests::" in key:
+            continue
+        fn = fx.fn(key)
+        for i, c in enumerate(fn.calls(r"PeerId::from_public_key_protobuf$")):
+            n += 1
+            ctx.bodies.add((fx.cfg, key))
+            rs = guards.rootstrs(fn, c.args[0])
+            ok = any(re.search(r"Message>?::(encode_to_vec|encode|encode_length_delimited_to_vec)$|to_protobuf_encoding$", x) for x in rs)
+            ctx.ob("R18.5", "%s/peer-id#%d-from-the-canonical-key-encoding" % (short(key), i), ok, site=fn.site(c.node), cfg=fx.cfg,
+                   detail="roots of the hashed bytes: %s" % sorted(rs)[:8])
+    ctx.anchor("R18.5", "callers of from_public_key_protobuf outside peer_id.rs (%s)" % fx.cfg, n, 1, cfg=fx.cfg)
+
+
 def r18_4(ctx, fx):
     """sibling agreement with the reference on the byte parser: from_bytes decodes with the parser that must consume the whole
     input (Multihash::from_bytes), exactly like libp2p-identity, and hands that multihash to from_multihash"""
@@ -234,7 +254,9 @@ def run(ctx):
     r18_2(ctx, fx)
     r18_3(ctx, fx)
     r18_4(ctx, fx)
+    r18_5(ctx, fx)
     if ctx.tier == "thorough":
+        r18_5(ctx, ctx.facts("all"))   # the TLS / QUIC path exists only with the quic feature
         import witness
         res, tail = witness.run()
         for w in ("PeerIdFieldIsPrivate", "PeerIdFieldNotAssignable"):
